@@ -177,6 +177,9 @@ func runC02(p *P, r *R) {
 		r.fail("R02.6", "anchor (*bufferManager).readBufferSlice", "", "function not found")
 	}
 
+	// R02.7 the head CAS must not be ABA-prone: a stale popper's CAS detaches the rest of the chain (buffers lost)
+	abaRule(p, r, "R02.7")
+
 	// R02.5 at most one push per recycleBuffer call
 	rb := p.fn("(*bufferManager).recycleBuffer")
 	if rb == nil {
